@@ -1,1 +1,3 @@
-
+pub mod hyper;
+pub mod npy;
+pub mod spec;
